@@ -11,6 +11,92 @@ LEVEL = 'other'
 MAGIC_DOC = bytes([0x41, 0x4D, 0x5A, 0x4E, 0x43, 0x42, 0x02, 0x00])
 
 
+def _self_field(v):
+    """dotted field path of `self` a value was read from (through casts / NonNull wrappers), or None"""
+    v = arith.strip_casts(v)
+    names = []
+    while v[0] == 't' and v[1] == 'field':
+        names.append(str(v[2][1]))
+        v = v[2][0]
+    if v[0] == 't' and v[1] == 'deref' and v[2][0][0] == 'sym' and names:
+        return '.'.join(reversed(names))
+    return None
+
+
+def _find_aggs(v, tystr, out, depth=0):
+    if depth > 6 or not isinstance(v, tuple) or not v:
+        return out
+    if v[0] == 'agg':
+        if v[1] == tystr and v[2] is not None:
+            out.append(v)
+        for f in v[3]:
+            _find_aggs(f, tystr, out, depth + 1)
+    return out
+
+
+def unmap_rules(fb, chk):
+    is_unmap = lambda n: n.split('::')[-1] == 'munmap'
+    is_map = lambda n: n.split('::')[-1] == 'mmap'
+    owners = [b for b in fb.bodies(common.SHM) if b.name == 'drop' and (b.impl_trait or '').endswith('Drop') and b.impl_self and
+              common.reaches_call(fb, b, is_unmap)]
+    n_ob = 0
+    for d in owners:
+        chk.saw(d)
+        slots = None
+        for p in common.mk_engine(fb).run(d):
+            for ef in p.effects:
+                if ef['kind'] == 'call' and is_unmap(ef['callee']) and len(ef['args']) >= 2:
+                    slots = (_self_field(ef['args'][0]), _self_field(ef['args'][1]))
+        if not slots or None in slots:
+            chk.ob('C16.V6', 'unmap:%s:arguments-are-own-fields' % d.impl_self.split('::')[-1], False, d.where(0),
+                   'Drop for %s calls munmap with arguments that are not fields of the value being dropped' % d.impl_self)
+            continue
+        ptr_f, len_f = slots
+        adt = None
+        for c in fb.crates:
+            adt = adt or c.adts.get(d.impl_self)
+        names = [f['name'] for f in adt['variants'][0]['fields']] if adt else []
+        if ptr_f not in names or len_f not in names:
+            continue
+        # every place such a value is built: the public constructors of the crate, explored with their helpers inlined
+        from .startup_model import is_reader_new, init_reader_open
+        init_reader_open(fb)
+        for ctor in [b for b in fb.bodies(common.SHM) if b.name == 'new' and b.defkind != 'Closure' and (b.impl_self or '').endswith(('ShmReader', 'ShmWriter'))]:
+            side_w = ctor.impl_self.endswith('ShmWriter')
+            eng, qs = common.run_unrolled(fb, ctor, inline_depth=8, no_inline=(is_reader_new if side_w else None))
+            for q in qs:
+                if not (q.kind == 'return' and q.value[0] == 'agg' and q.value[2] == 'Ok'):
+                    continue
+                for g in _find_aggs(q.value, d.impl_self, []):
+                    vals = dict(zip(names, g[3]))
+                    pv, lv = arith.strip_casts(vals[ptr_f]), arith.strip_casts(vals[len_f])
+                    maps = [(n, ef) for n, ef in enumerate(q.effects) if ef['kind'] == 'call' and is_map(ef['callee'])]
+                    mine = [(n, ef) for n, ef in maps if any(y[0] == 't' and y[1] == 'call' and y[2][1] == n for y in psi.walk(pv))]
+                    ok_ptr = len(mine) == 1
+                    ok_len = False
+                    detail = 'pointer field `%s` <- %s' % (ptr_f, fmt(pv)[:60])
+                    if ok_ptr:
+                        mlen = mine[0][1]['args'][1]
+                        # (nix wraps the length in NonZeroUsize::new(len).unwrap())
+                        core_ = lambda x: arith.strip_casts(x)
+                        ml = core_(mlen)
+                        for _ in range(6):
+                            if ml[0] == 'agg' and len(ml[3]) == 1 and 'NonZero' in ml[1]:
+                                ml = core_(ml[3][0])
+                            elif ml[0] == 't' and ml[1] == 'call' and ml[2][0].split('::')[-1] in ('unwrap', 'expect', 'unwrap_unchecked', 'get') and \
+                                    len(ml[2]) > 2 and ml[2][2][0] == 'agg' and ml[2][2][2] == 'Some' and ml[2][2][3]:
+                                ml = core_(ml[2][2][3][0])       # NonZeroUsize::new(len).unwrap()
+                            else:
+                                break
+                        ok_len = core_(lv) == ml
+                        detail += '; mmap length %s; length field `%s` <- %s' % (fmt(mlen)[:60], len_f, fmt(lv)[:60])
+                    n_ob += 1
+                    chk.ob('C16.V6', 'unmap:%s:length-and-pointer-are-the-mapped-ones' % d.impl_self.split('::')[-1], ok_ptr and ok_len, q.where[2],
+                           detail + ('' if ok_ptr and ok_len else ' -- munmap in Drop would be given a pointer / length other than '
+                                     "what mmap returned / was given (unmapping more than was mapped destroys the caller's other mappings)"))
+    chk.floor('C16.V6', 'mapping owners checked against their constructors', n_ob, 2)
+
+
 def run(ctx, chk):
     fb = ctx.facts()
     chk.explanation = ('V1/V2: decision list of the open path: each check (open, read, short read, magic, version, generation, '
@@ -139,6 +225,10 @@ def run(ctx, chk):
                        [[hex(w) for w in ws] for ws in seen], [hex(w) for w in doc_words]))
     else:
         chk.missing('C16.V1', 'SHM_MAGIC constant')
+    # ---- V6 what is unmapped is what was mapped: every owner of a mapping in the shm crate (a type whose Drop reaches
+    # munmap) hands munmap the pointer mmap returned and the very length mmap was given, on every path that builds it.
+    # (A larger length unmaps foreign memory when a client closes the segment -- a crash; a smaller one leaks.)
+    unmap_rules(fb, chk)
     # ---- V5 segment size: the length the daemon maps on every successful start-up path (whatever helper computes it)
     from . import C04
     from .startup_model import StartupModel
